@@ -462,6 +462,12 @@ def swap_direction(ctx, rep):
     loops = [t for t in tree if t[0] == 'loop']
     ok = False
     why = 'not a single loop of two exchanging stores'
+    shape = not (len(loops) == 1 and len([t for t in loops[0][3] if t[0] == 'store']) == 2 and loops[0][2] is not None and
+                 len([t for t in tree if t[0] in ('store', 'call', 'if')]) == 0)
+    if shape:
+        # unrolled, split or otherwise restructured: the single-exchange template does not apply
+        rep.unk('B5', 'a_swap', 'not a single loop of two exchanging stores: the order of the exchanges is not decided for this shape', loc=fn.loc(fn.entry.term))
+        return
     if len(loops) == 1:
         cnt, T, body = loops[0][1], loops[0][2], loops[0][3]
         st = [t for t in body if t[0] == 'store']
